@@ -293,6 +293,8 @@ def check_dynamic(case, workdir):
         return r.fail("run failed: rc=%s: %s" % (run["rc"], run["out"][-500:].replace("\n", " | ")))
     tasks, locks, parents, queued = parse_tables(workdir)
     steps = parse_trace(workdir)
+    # everything below is read off the recorded trace of this run
+    r.schedule_dependent = case["threads"] > 1
     if sorted(steps) != list(range(1, nsteps + 1)):
         return r.fail("trace covers steps %s, expected 1..%d" % (sorted(steps), nsteps))
     stolen = False
